@@ -31,23 +31,23 @@ import (
 
 type nopLogger struct{}
 
-func (nopLogger) EnableJSONOutput(bool)                      {}
-func (nopLogger) SetAppID(string)                            {}
-func (nopLogger) SetOutputLevel(logger.LogLevel)             {}
-func (nopLogger) SetOutput(io.Writer)                        {}
-func (nopLogger) IsOutputLevelEnabled(logger.LogLevel) bool  { return false }
-func (nopLogger) WithLogType(string) logger.Logger           { return nopLogger{} }
-func (nopLogger) WithFields(map[string]any) logger.Logger    { return nopLogger{} }
-func (nopLogger) Info(...interface{})                        {}
-func (nopLogger) Infof(string, ...interface{})               {}
-func (nopLogger) Debug(...interface{})                       {}
-func (nopLogger) Debugf(string, ...interface{})              {}
-func (nopLogger) Warn(...interface{})                        {}
-func (nopLogger) Warnf(string, ...interface{})               {}
-func (nopLogger) Error(...interface{})                       {}
-func (nopLogger) Errorf(string, ...interface{})              {}
-func (nopLogger) Fatal(...interface{})                       {}
-func (nopLogger) Fatalf(string, ...interface{})              {}
+func (nopLogger) EnableJSONOutput(bool)                     {}
+func (nopLogger) SetAppID(string)                           {}
+func (nopLogger) SetOutputLevel(logger.LogLevel)            {}
+func (nopLogger) SetOutput(io.Writer)                       {}
+func (nopLogger) IsOutputLevelEnabled(logger.LogLevel) bool { return false }
+func (nopLogger) WithLogType(string) logger.Logger          { return nopLogger{} }
+func (nopLogger) WithFields(map[string]any) logger.Logger   { return nopLogger{} }
+func (nopLogger) Info(...interface{})                       {}
+func (nopLogger) Infof(string, ...interface{})              {}
+func (nopLogger) Debug(...interface{})                      {}
+func (nopLogger) Debugf(string, ...interface{})             {}
+func (nopLogger) Warn(...interface{})                       {}
+func (nopLogger) Warnf(string, ...interface{})              {}
+func (nopLogger) Error(...interface{})                      {}
+func (nopLogger) Errorf(string, ...interface{})             {}
+func (nopLogger) Fatal(...interface{})                      {}
+func (nopLogger) Fatalf(string, ...interface{})             {}
 
 const (
 	graceGenerous = 10 * time.Second
